@@ -70,6 +70,10 @@ func (c *tablesCase) source() string {
 			b.WriteString("func init() {}\n\n")
 		case "blank":
 			b.WriteString("func _() {}\n\nvar _ = 1\n\nconst _ = 2\n\n")
+		case "blanktype": // two of each: a table that admitted them would have to choose
+			b.WriteString("type _ struct{ X, Y int }\n\ntype _ int\n\nconst _ = \"guard\"\n\nconst _ = 8\n\n")
+		case "ifacelit": // methods of interface literals (in a variable's type, an alias, a type assertion) are nobody's package-level functions
+			fmt.Fprintf(&b, "var W%d interface{ %s() }\n\ntype Al%d = interface{ %s() }\n\nfunc assert%d(x any) bool { _, ok := x.(interface{ %s() }); return ok }\n\n", i, d.Name, i, d.Name, i, d.Name)
 		}
 	}
 	return b.String()
@@ -143,7 +147,7 @@ func modelDefs(fset *token.FileSet, pkg *packages.Package) (toks []string, ids m
 	return toks, ids
 }
 
-func showObjTable[T types.Object](fset *token.FileSet, m map[string]T, ids map[string]int) string {
+func showObjTable[T types.Object](fset *token.FileSet, m map[string]T, ids map[string]int, funcs bool) string {
 	ks := make([]string, 0, len(m))
 	for k := range m {
 		ks = append(ks, k)
@@ -151,8 +155,8 @@ func showObjTable[T types.Object](fset *token.FileSet, m map[string]T, ids map[s
 	sort.Strings(ks)
 	var o []string
 	for _, k := range ks {
-		if k == "init" || k == "_" {
-			continue // several may exist; the statement sets them aside
+		if funcs && (k == "init" || k == "_") {
+			continue // several may exist; the statement sets init and blank-named functions aside — nothing else
 		}
 		id := -1
 		if any(m[k]) != nil {
@@ -178,7 +182,7 @@ func (c *tablesCase) eval(p gengotypes.Package, dir string, idx int) {
 		}
 		toks, ids := modelDefs(fset, pkg)
 		c.line = "tables " + strings.Join(toks, " ")
-		out := "types " + showObjTable(p.FileSet(), p.Types(), ids) + " consts " + showObjTable(p.FileSet(), p.Constants(), ids) + " funcs " + showObjTable(p.FileSet(), p.Functions(), ids)
+		out := "types " + showObjTable(p.FileSet(), p.Types(), ids, false) + " consts " + showObjTable(p.FileSet(), p.Constants(), ids, false) + " funcs " + showObjTable(p.FileSet(), p.Functions(), ids, true)
 		if v := scopeOracle(p); v != "" {
 			out += " ORACLE:" + v
 		}
@@ -216,7 +220,7 @@ func scopeOracle(p gengotypes.Package) string {
 		}
 	}
 	for n := range p.Constants() {
-		if _, ok := wantC[n]; !ok && n != "_" {
+		if _, ok := wantC[n]; !ok {
 			return fmt.Sprintf("Constants() lists %q (%v), which is not a package-scope constant", n, describeObj(p, p.Constants()[n]))
 		}
 	}
@@ -388,7 +392,11 @@ func genTables(r *Rng) *tablesCase {
 	n := 2 + r.Intn(8)
 	mi := 0
 	for i := 0; i < n; i++ {
-		switch r.Intn(14) {
+		switch r.Intn(16) {
+		case 14:
+			c.Decls = append(c.Decls, LDecl{Kind: "blanktype"})
+		case 15:
+			c.Decls = append(c.Decls, LDecl{Kind: "ifacelit", Name: Pick(r, []string{"FA", "FB", "FC", "FD", "M1", "Close", "KA"})})
 		case 0, 1, 2:
 			nm := Pick(r, names)
 			if used[nm] {
@@ -1095,7 +1103,7 @@ func (c *modCase) eval() {
 		}
 		var dirs, toks []string
 		oracle := ""
-		for _, pp := range ps {
+		for pi, pp := range ps {
 			p := u.Package(pp.path)
 			if p == nil {
 				return "missing-package " + pp.path
@@ -1105,11 +1113,30 @@ func (c *modCase) eval() {
 			if oracle == "" && filepath.Clean(sd) != filepath.Join(root, pp.dir) {
 				oracle = fmt.Sprintf("SourceDir() of %s is %q, its files are in %q", pp.path, sd, filepath.Join(root, pp.dir))
 			}
+			matched := b01(pi < 3) // ./... in the main module matches its three packages, never those of a nested module
 			if m := p.Module(); m != nil {
-				toks = append(toks, pp.path+";"+m.Path+";"+rel(m.Dir))
+				toks = append(toks, pp.path+";"+m.Path+";"+rel(m.Dir)+";"+matched)
 			} else {
-				toks = append(toks, pp.path+";-;-")
+				toks = append(toks, pp.path+";-;-;"+matched)
 			}
+		}
+		// which packages the loader calls local (processed under All, hashed into gengo.sum), and which of them direct
+		var locs []string
+		for path, direct := range u.LocalPkgPaths() {
+			locs = append(locs, path+"="+b01(direct))
+		}
+		sort.Strings(locs)
+		wantLocal := map[string]bool{}
+		for _, pp := range ps[:3] {
+			wantLocal[pp.path+"=1"] = true
+		}
+		for _, l := range locs {
+			if oracle == "" && !wantLocal[l] {
+				oracle = "LocalPkgPaths() lists " + l + ": only the three packages of the main module were asked for, the others belong to another module"
+			}
+		}
+		if oracle == "" && len(locs) != 3 {
+			oracle = fmt.Sprintf("LocalPkgPaths() lists %v, the main module has three packages", locs)
 		}
 		qp := u.Package(ps[c.Query].path)
 		loc := "none"
@@ -1123,7 +1150,7 @@ func (c *modCase) eval() {
 			}
 		}
 		c.line = "locate " + ps[c.Query].dir + " " + strings.Join(toks, " ")
-		out := "dirs " + strings.Join(dirs, ",") + " locate " + loc
+		out := "dirs " + strings.Join(dirs, ",") + " locate " + loc + " locals " + strings.Join(locs, ",")
 		if oracle != "" {
 			out += " ORACLE:" + oracle
 		}
@@ -1184,13 +1211,13 @@ func init() {
 				}
 			},
 			EnumExhaustive: false, ShrinkBudget: 1, MaxShrinks: 3,
-			Rule: "two-module layouts: a main module (3 module paths) requiring a second module (3 paths, one of them looking like a sub-path of the main module) that a replace directive points at a directory beside the main module, nested inside it, or deeper elsewhere; three packages per module; compared with the model (path arithmetic of SourceDir, LocateInPackage as search over the universe): the source directory of all six packages and the package located for a position; oracle: SourceDir() = the directory the harness wrote the files to, LocateInPackage(position) = the package itself",
+			Rule: "two-module layouts: a main module (3 module paths) requiring a second module (3 paths, one of them looking like a sub-path of the main module) that a replace directive points at a directory beside the main module, nested inside it, or deeper elsewhere; three packages per module; compared with the model (path arithmetic of SourceDir, LocateInPackage as search over the universe, the locality decision of Load): the source directory of all six packages, the package located for a position and LocalPkgPaths(); oracle: SourceDir() = the directory the harness wrote the files to, LocateInPackage(position) = the package itself, local = exactly the three packages of the main module, all direct",
 		},
 		{
 			Name: "tables", Quick: 450, Thorough: 4500, New: func() Case { return &tablesCase{} },
 			Gen:      func(r *Rng, i int) Case { return genTables(r) },
 			BatchRun: tablesBatch, ShrinkBudget: 40, MaxShrinks: 5,
-			Rule: "synthetic packages of 2–9 declarations among struct / generic / interface / alias types, consts, vars, funcs, value- and pointer-receiver methods on plain and generic types, function-local types and constants, type parameters of generic functions and of receivers (all often sharing names with package-level declarations), init and blank declarations; loaded with the real types.Load (150 per load); the model gets types.Info.Defs of an independent type-check of the same source; compared: Types/Constants/Functions as name → object position; oracle: the loader's own types.Package scope by pointer identity, Named.Method(i) for MethodsOf",
+			Rule: "synthetic packages of 2–9 declarations among struct / generic / interface / alias types, consts, vars, funcs, value- and pointer-receiver methods on plain and generic types, function-local types and constants, type parameters of generic functions and of receivers (all often sharing names with package-level declarations), init and blank functions/variables/constants, pairs of blank type and constant declarations, interface literals (in a variable's type, an alias, a type assertion) whose method carries the name of a package-level function; loaded with the real types.Load (150 per load); the model gets types.Info.Defs of an independent type-check of the same source; compared: Types/Constants/Functions as name → object position; oracle: the loader's own types.Package scope by pointer identity, Named.Method(i) for MethodsOf",
 		},
 		{
 			Name: "methods", New: func() Case { return &methodsCase{} },
